@@ -3,9 +3,12 @@ CONSTANTS
   Conns = {1}
   Kinds = {"server", "out", "in"}
   Obfs = {FALSE, TRUE}
+  SlowListener = TRUE
   GuardAcceptFinish = TRUE
   CloseOnCancel = TRUE
   AbortConnectOnClose = TRUE
+  ConnectingReportGuarded = TRUE
+  ClosingReportGuarded = TRUE
   MaxLives = 2
   MaxCalls = 2
   MaxMsgs = 1
